@@ -6,7 +6,7 @@ branch c13, over the constants regenerated into `NV.Gen.C13`.  Quantification is
 buffer state satisfying the stated invariant (which the initial state satisfies and every step preserves), every
 byte stream and every way of cutting it into reads.
 -/
-import NV.C13.Lemmas6
+import NV.C13.Lemmas11
 
 namespace NV.C13
 
@@ -216,5 +216,87 @@ theorem framing_never_crashes (p : Port) (ops : List AnyOp) :
         · exact ha x hx
         · have : x = l := by simpa using hx
           subst this; exact h4 x rfl
+
+/-! ### the end-to-end clause: delivered command lines = `lines stream`, for every schedule -/
+
+/-- every schedule of client sends, read events and extractions runs to the end (line mode, every port) -/
+theorem fRun_never_crashes (p : Port) (ops : List FOp) : ∃ f, fRun { s := S.init p } ops = .ok f := by
+  suffices H : ∀ f : F, Inv f.s → f.s.dec.fl.single = false → ∃ f', fRun f ops = .ok f' from H _ (init_inv p) rfl
+  induction ops with
+  | nil => intro f _ _; exact ⟨f, rfl⟩
+  | cons op ops ih =>
+    intro f h hs
+    cases op with
+    | send b =>
+      simp only [fRun, fStep]
+      exact ih _ ⟨h.textLen, h.se, h.eMax, h.dec⟩ hs
+    | read =>
+      obtain ⟨s', evs, h1, h2, h3⟩ := getUserData_ok' h
+      simp only [fRun, fStep, h1]
+      exact ih _ h2 (by rw [h3]; exact hs)
+    | extract =>
+      obtain ⟨s', r, h1, h2, h3, _⟩ := getUserCommand_ok h hs
+      simp only [fRun, fStep, h1]
+      exact ih _ h2 h3
+
+/-- **segmentation_independent, end to end (telnet port, line mode).**
+    Take any schedule `ops` of client sends (any bytes, any chunking), read events and command extractions on a fresh
+    telnet connection, and let the run satisfy the explicit side condition (`clean`): at every read the pending,
+    not yet extracted text is below the discard threshold of get_user_data, and at every extraction it does not
+    fill the buffer.  Then, whatever the segmentation and the interleaving:
+    * the lines delivered so far, followed by the commands still complete in the pending text, are exactly
+      `lines received` — the specification applied to the bytes received so far, which knows nothing of reads;
+    * `received ++ socket = sent`;
+    * after an extraction that returned no command, everything is delivered: `delivered = lines received`. -/
+theorem telnet_lines_delivered (ops : List FOp) (f : F) (h : fRun { s := S.init .telnet } ops = .ok f)
+    (hc : f.clean = true) :
+    f.delivered ++ cmdsOf [] (pend f.s) = lines f.received ∧ f.received ++ f.s.sock = f.sent ∧
+    (f.lastNone = true → f.delivered = lines f.received) := by
+  have k := telnetK_run ops _ f (fun _ => telnetK_init) h hc
+  have h0 := k.cmds []
+  simp only [List.append_nil] at h0
+  rw [← lines_eq_cmdsOf] at h0
+  refine ⟨h0, k.sentEq, fun hn => ?_⟩
+  rw [k.drained hn, List.append_nil] at h0
+  exact h0
+
+/-- non-vacuity: a clean, drained run ("hi" CR LF sent, read, two extractions) -/
+example : (fRun { s := S.init .telnet } [.send [104, 105, 13, 10], .read, .extract, .extract]).toOption.map
+    (fun f => (f.clean, f.delivered, f.lastNone, f.s.sock)) = some (true, [[104, 105]], true, []) := by
+  set_option maxRecDepth 1000000 in decide
+
+/-- two schedules that send the same bytes — cut into different chunks, read and extracted in different orders —
+    and that both end drained with an empty socket deliver the same lines, namely `lines` of the bytes sent -/
+theorem telnet_schedule_independent (ops₁ ops₂ : List FOp) (f₁ f₂ : F)
+    (h₁ : fRun { s := S.init .telnet } ops₁ = .ok f₁) (h₂ : fRun { s := S.init .telnet } ops₂ = .ok f₂)
+    (c₁ : f₁.clean = true) (c₂ : f₂.clean = true) (d₁ : f₁.lastNone = true) (d₂ : f₂.lastNone = true)
+    (e₁ : f₁.s.sock = []) (e₂ : f₂.s.sock = []) (hs : f₁.sent = f₂.sent) :
+    f₁.delivered = f₂.delivered ∧ f₁.delivered = lines f₁.sent := by
+  obtain ⟨_, s1, l1⟩ := telnet_lines_delivered ops₁ f₁ h₁ c₁
+  obtain ⟨_, s2, l2⟩ := telnet_lines_delivered ops₂ f₂ h₂ c₂
+  rw [e₁, List.append_nil] at s1
+  rw [e₂, List.append_nil] at s2
+  rw [l1 d₁, l2 d₂, s1, s2, hs]
+  exact ⟨rfl, rfl⟩
+
+/-- **segmentation_independent, end to end (PORT_ASCII).**  For any schedule of client sends, read events (and
+    extractions, which do nothing on this port) on a fresh ascii connection such that at every read the buffer is not
+    full (`clean`: no piece longer than MAX_TEXT-2 has accumulated — otherwise the over-long line is discarded):
+    the lines passed to process_input so far are exactly `asciiLines received`, whatever the segmentation; the partial
+    line kept between reads is the unterminated rest of the stream; `received ++ socket = sent`. -/
+theorem ascii_lines_delivered (ops : List FOp) (f : F) (h : fRun { s := S.init .ascii } ops = .ok f)
+    (hc : f.clean = true) :
+    f.delivered = asciiLines f.received ∧ f.received ++ f.s.sock = f.sent ∧
+    (∀ x, asciiLines (f.received ++ x) = f.delivered ++ asciiLinesAux [] (pend f.s ++ x)) := by
+  have k := asciiK_run ops _ f (fun _ => asciiK_init) h hc
+  have h0 := k.lines []
+  simp only [List.append_nil] at h0
+  rw [asciiLinesAux_pending k.nolf, List.append_nil] at h0
+  exact ⟨h0, k.sentEq, fun x => (k.lines x).symm⟩
+
+/-- non-vacuity: "hel", "lo\n" in two reads -/
+example : (fRun { s := S.init .ascii } [.send [104, 101, 108], .read, .send [108, 111, 10], .read]).toOption.map
+    (fun f => (f.clean, f.delivered, f.s.sock)) = some (true, [[104, 101, 108, 108, 111]], []) := by
+  set_option maxRecDepth 1000000 in decide
 
 end NV.C13
